@@ -1,5 +1,5 @@
 import IronCalc.Formula.LexPrint
-import IronCalc.Formula.LexProofs
+import IronCalc.Formula.LexProofsRC
 /-
   C09, character level — from the printer model's abstract tokens (`Tok`, opaque payloads) to
   concrete tokens (`CTok`) through an interpretation of the payloads, and the proof that an
@@ -72,12 +72,12 @@ theorem follower_facts (c : Char) (hc : c ∈ followers) :
   simp only [followers, List.mem_cons, List.not_mem_nil, or_false] at hc
   rcases hc with h | h | h | h | h | h | h | h | h | h | h | h | h | h | h <;> subst h <;> decide
 
-theorem follower_not_identChar (cfg : LexCfg) (h : CfgOK cfg) (c : Char) (hc : c ∈ followers) :
+theorem follower_not_identChar (cfg : LexCfg) (h : CfgBase cfg) (c : Char) (hc : c ∈ followers) :
     isIdentChar cfg.cc c = false := by
   obtain ⟨hs, h1, h2, _⟩ := follower_facts c hc
   simp [isIdentChar, h.special_not_alnum c hs, h1, h2]
 
-theorem closeOK_identlike (cfg : LexCfg) (h : CfgOK cfg) (t : CTok)
+theorem closeOK_identlike (cfg : LexCfg) (h : CfgBase cfg) (t : CTok)
     (hk : (∃ s, t = .ident s) ∨ (∃ b, t = .bool b)) :
     closeOK cfg t = true ∧ badNext cfg t '(' = false := by
   have hp : isIdentChar cfg.cc '(' = false := by
@@ -94,7 +94,7 @@ theorem render_single (cfg : LexCfg) (p : CTok) : render cfg [p] = renderTok cfg
   simp [render]
 
 /-- the first character of a well-formed identifier / boolean is neither `=` nor `>` -/
-theorem identlike_first (cfg : LexCfg) (h : CfgOK cfg) (t : CTok) (hok : tokOK cfg t = true)
+theorem identlike_first (cfg : LexCfg) (h : CfgBase cfg) (t : CTok) (hok : tokOK cfg t = true)
     (hk : (∃ s, t = .ident s) ∨ (∃ b, t = .bool b)) (ch : Char)
     (hh : (renderTok cfg t).head? = some ch) : ch ≠ '=' ∧ ch ≠ '>' := by
   have key : isIdentStart cfg.cc ch = true := by
@@ -127,7 +127,7 @@ theorem getLastC?_append_ne {A B : List CTok} (hB : B ≠ []) : (A ++ B).getLast
   | none => simp [List.getLast?_eq_none_iff] at h; exact absurd h hB
   | some b => simp
 
-theorem glueFree_append (cfg : LexCfg) (hcfg : CfgOK cfg) (A B : List CTok)
+theorem glueFree_append (cfg : LexCfg) (hcfg : CfgAny cfg) (A B : List CTok)
     (hA : glueFree cfg A = true) (hB : glueFree cfg B = true)
     (hBok : ∀ t, t ∈ B → tokOK cfg t = true)
     (h : ∀ t c, A.getLast? = some t → (render cfg B).head? = some c → badNext cfg t c = false) :
@@ -140,7 +140,7 @@ theorem glueFree_append (cfg : LexCfg) (hcfg : CfgOK cfg) (A B : List CTok)
       cases B with
       | nil => rfl
       | cons u B' =>
-        have hne := renderTok_ne_nil cfg hcfg u (hBok u (List.mem_cons_self ..))
+        have hne := renderTok_ne_nil_any cfg hcfg u (hBok u (List.mem_cons_self ..))
         obtain ⟨c, tl, hc⟩ := List.exists_cons_of_ne_nil hne
         have hb := h t c rfl (by simp [render, hc])
         simp only [List.cons_append, List.nil_append, glueFree, Bool.and_eq_true, Bool.not_eq_true',
@@ -182,14 +182,14 @@ theorem conc_ne (cfg : LexCfg) (I : Interp) (hI : InterpOK cfg I) (t : Tok) : co
   | _ => simp [conc]
 
 /-- the first character of the text of an opener is neither `=` nor `>` -/
-theorem opener_first (cfg : LexCfg) (hcfg : CfgOK cfg) (I : Interp) (hI : InterpOK cfg I) (u : Tok)
+theorem opener_first (cfg : LexCfg) (hcfg : CfgAny cfg) (I : Interp) (hI : InterpOK cfg I) (u : Tok)
     (hu : u.opener = true) (c : Char) (hc : (render cfg (conc I u)).head? = some c) :
     c ≠ '=' ∧ c ≠ '>' := by
   cases u with
   | lit cl a => exact hI.lit_first cl a c hc
   | ident x =>
     rw [conc, render_single] at hc
-    exact identlike_first cfg hcfg _ (hI.ident_ok x) (hI.ident_kind x) c hc
+    exact identlike_first cfg hcfg.base _ (hI.ident_ok x) (hI.ident_kind x) c hc
   | lp => simp [conc, render, renderTok] at hc; subst hc; decide
   | «at» => simp [conc, render, renderTok] at hc; subst hc; decide
   | op o =>
@@ -218,18 +218,18 @@ theorem follower_first (cfg : LexCfg) (I : Interp) (hI : InterpOK cfg I) (u : To
   | _ => simp [Tok.follower] at hu
 
 /-- the last concrete token of a value token is not glued by a follower character -/
-theorem value_close (cfg : LexCfg) (hcfg : CfgOK cfg) (I : Interp) (hI : InterpOK cfg I) (t : Tok)
+theorem value_close (cfg : LexCfg) (hcfg : CfgAny cfg) (I : Interp) (hI : InterpOK cfg I) (t : Tok)
     (ht : t.value = true) (lt : CTok) (hl : (conc I t).getLast? = some lt) : closeOK cfg lt = true := by
   cases t with
   | lit c a => exact hI.lit_last c a lt hl
   | ident x =>
     simp [conc] at hl; subst hl
-    exact (closeOK_identlike cfg hcfg _ (hI.ident_kind x)).1
+    exact (closeOK_identlike cfg hcfg.base _ (hI.ident_kind x)).1
   | hash => simp [conc] at hl; subst hl; exact hI.spill_close
   | _ => simp [Tok.value] at ht
 
 /-- **an allowed adjacent pair does not glue** -/
-theorem pair_ok (cfg : LexCfg) (hcfg : CfgOK cfg) (I : Interp) (hI : InterpOK cfg I) (t u : Tok)
+theorem pair_ok (cfg : LexCfg) (hcfg : CfgAny cfg) (I : Interp) (hI : InterpOK cfg I) (t u : Tok)
     (h : adjOK (csOf cfg I) t u = true) (lt : CTok) (c : Char)
     (hl : (conc I t).getLast? = some lt) (hc : (render cfg (conc I u)).head? = some c) :
     badNext cfg lt c = false := by
@@ -266,7 +266,7 @@ theorem pair_ok (cfg : LexCfg) (hcfg : CfgOK cfg) (I : Interp) (hI : InterpOK cf
         cases t with
         | ident x =>
           simp [conc] at hl; subst hl
-          exact (closeOK_identlike cfg hcfg _ (hI.ident_kind x)).2
+          exact (closeOK_identlike cfg hcfg.base _ (hI.ident_kind x)).2
         | _ => simp [Tok.isIdent] at hid
     · -- a comparison followed by an opener
       cases t with
@@ -289,16 +289,16 @@ theorem chainOK_tail (R : Tok → Tok → Bool) (t : Tok) (r : List Tok) (h : ch
   | nil => rfl
   | cons u r' => simp only [chainOK, Bool.and_eq_true] at h; exact h.2
 
-theorem render_concL_head (cfg : LexCfg) (hcfg : CfgOK cfg) (I : Interp) (hI : InterpOK cfg I)
+theorem render_concL_head (cfg : LexCfg) (hcfg : CfgAny cfg) (I : Interp) (hI : InterpOK cfg I)
     (u : Tok) (r : List Tok) :
     (render cfg (concL I (u :: r))).head? = (render cfg (conc I u)).head? := by
   obtain ⟨x, xs, hx⟩ := List.exists_cons_of_ne_nil (conc_ne cfg I hI u)
   have hxok := conc_ok cfg I hI u x (by rw [hx]; exact List.mem_cons_self ..)
-  obtain ⟨c, tl, hc⟩ := List.exists_cons_of_ne_nil (renderTok_ne_nil cfg hcfg x hxok)
+  obtain ⟨c, tl, hc⟩ := List.exists_cons_of_ne_nil (renderTok_ne_nil_any cfg hcfg x hxok)
   simp [concL, render, hx, hc]
 
 /-- **adjacency-safe abstract tokens concretise to well-formed, glue-free tokens** -/
-theorem concL_glueFree (cfg : LexCfg) (hcfg : CfgOK cfg) (I : Interp) (hI : InterpOK cfg I) :
+theorem concL_glueFree (cfg : LexCfg) (hcfg : CfgAny cfg) (I : Interp) (hI : InterpOK cfg I) :
     ∀ ts : List Tok, chainOK (adjOK (csOf cfg I)) ts = true →
       (∀ x, x ∈ concL I ts → tokOK cfg x = true) ∧ glueFree cfg (concL I ts) = true
   | [], _ => ⟨fun x hx => by simp [concL] at hx, rfl⟩
